@@ -33,6 +33,7 @@ class Gen:
         self.reset_kind = None
         self.on_reset = False
         self.push = False
+        self.partial = False  # slice / bit writes of the targets that have a default (C04: noreset objects written partially)
 
     # ---- expressions -------------------------------------------------------------------------
     def expr(self, depth=0):
@@ -83,6 +84,11 @@ class Gen:
         rs = self.rs
         if self.push and rs.below(5) == 0:
             return ["push", self.expr()]
+        if self.partial and rs.below(5) == 0:
+            hi = rs.below(W)
+            lo = rs.below(hi + 1)
+            src = rs.choice([["in", "d"], ["v", rs.choice(self.vars)], ["port", rs.choice(["q", "r"])], ["addk", ["in", "d"], rs.range(1, 3)]])
+            return ["sigs", rs.choice([t for t in self.targets if t != "nd"]), hi, lo, src]
         c = rs.below(6)
         if c < 2:
             return self.mark()
@@ -259,6 +265,12 @@ def r_block(stmts, ind, out):
         if k == "sig":
             e = s[2]
             out.append(f"{pad}self.{s[1]} <<= {r_expr(e)}")
+        elif k == "sigs":
+            _, t, hi, lo, e = s
+            if hi == lo:
+                out.append(f"{pad}self.{t}[{hi}] <<= ({r_expr(e)})[0]")
+            else:
+                out.append(f"{pad}self.{t}[{hi}:{lo}] <<= ({r_expr(e)})[{hi - lo}:0]")
         elif k == "var":
             out.append(f"{pad}{s[1]} @= {r_expr(s[2])}")
         elif k == "push":
